@@ -400,3 +400,62 @@ def run(ctx):
                 seen6.add("net" if nontrivial else "flat")
             ctx.inst("R05.6", "margin-net-of-funding:%s" % short_fn(g), bad6 is None and "net" in seen6, g.where(),
                      bad6 or "margin = max(0, stored margin - (latest - checkpoint) * size / decimals) (%s)" % sorted(seen6))
+
+    # ---------------------------------------------------------------- R05.7
+    # the leverage guard (R05.1) is about the requested leverage; it bounds the position only if the margin the increase
+    # reply credits - and collects - is the order's notional divided by that same leverage:
+    #   credited margin = tmp.open_notional * decimals / tmp.leverage = increment of margin_to_vault,
+    #   and the execute step records leverage = msg.leverage, open_notional = msg.margin_amount * msg.leverage / decimals
+    ctx.rule("R05.7", "increase: margin credited to the position = margin collected = recorded open_notional * decimals / recorded leverage; the record holds msg.leverage and msg.margin_amount * msg.leverage / decimals", 3)
+    MARG = ("div", ("mul", em.tmp_leaf("open_notional"), em.cfg_leaf("decimals")), em.tmp_leaf("leverage"))
+    for ckey in ("OpenPosition>id1", "OpenPosition>id3>id1"):
+        st7 = em.reply_step(ckey)
+        if st7 is None:
+            ctx.lost("R05.7", ckey)
+            continue
+        bad7 = None
+        n7 = 0
+        for q in st7.ok_paths():
+            for e in em.remain_margin_calls(q):
+                n7 += 1
+                md = [a_ for a_, i_ in zip(e.args, range(e.target.arg_count)) if e.target.locals[i_ + 1]["ty"].endswith("Integer")]
+                if not md:
+                    bad7 = bad7 or "remain-margin call without a margin delta"
+                    continue
+                nd = N(ix, st7.c(md[0]))
+                if match(("pos", MARG), nd) is None:
+                    bad7 = bad7 or "margin credited is %s" % norm.show(nd)[:200]
+            # what is collected: the stored/used margin_to_vault grows by the same amount
+            for x in [v for v in model.path_values(q)]:
+                pass
+        # margin_to_vault: every cw20 pull / native requirement of this step that is the record's margin_to_vault carries the same increment
+        seen_inc = False
+        for q in st7.ok_paths():
+            for v in model.path_values(q):
+                for y in sym.walk(ix.inline(st7.c(v))):
+                    ny = N(ix, y) if tag(y) in ("call", "op") else None
+                    if ny and ny[0] == "iadd" and any(t_[0] == "leaf" and isinstance(t_[1], int) and em.tmp(t_[1], "margin_to_vault") for t_ in ny[1:]):
+                        other = [t_ for t_ in ny[1:] if not (t_[0] == "leaf" and isinstance(t_[1], int) and em.tmp(t_[1], "margin_to_vault"))]
+                        if other:
+                            seen_inc = True
+                            if match(("pos", MARG), other[0]) is None:
+                                bad7 = bad7 or "margin_to_vault grows by %s" % norm.show(other[0])[:200]
+        ctx.inst("R05.7", "credited-equals-collected:%s" % ckey, bad7 is None and n7 > 0 and seen_inc, st7.fn.where(),
+                 bad7 or "%d settlements: margin delta = margin_to_vault increment = tmp.open_notional * decimals / tmp.leverage" % n7)
+    ex7 = em.exec_step("OpenPosition")
+    if ex7 is None:
+        ctx.lost("R05.7", "OpenPosition execute step")
+    else:
+        bad7 = None
+        n7 = 0
+        for q in ex7.ok_paths():
+            for tv in em.stored_tmp(ex7, q):
+                n7 += 1
+                lev = ix.inline(ex7.c(sym.field(tv, "leverage")))
+                on = N(ix, ex7.c(sym.field(tv, "open_notional")))
+                if lev != ex7.msgfield("leverage"):
+                    bad7 = bad7 or "recorded leverage is %s" % sym.show(lev, 4)
+                want = ("div", ("mul", ("leaf", ex7.msgfield("margin_amount")), ("leaf", ex7.msgfield("leverage"))), em.cfg_leaf("decimals"))
+                if match(want, on) is None:
+                    bad7 = bad7 or "recorded open_notional is %s" % norm.show(on)[:160]
+        ctx.inst("R05.7", "record:OpenPosition", bad7 is None and n7 > 0, ex7.fn.where(), bad7 or "%d stores of the in-flight record: leverage = msg.leverage, open_notional = msg.margin_amount * msg.leverage / decimals" % n7)
